@@ -33,6 +33,8 @@ pub enum SK {
     Ready,
     /// QoS 1 with a payload larger than the peer's maximum packet size: must fail locally
     Q1Big,
+    /// QoS 1 publish with a property the encoder must refuse (v5: 65536-byte content type; v3: as Q1LongTopic)
+    Q1LongProp,
     /// QoS 0 publish with a 24-byte payload (fills a small write buffer: write back-pressure engages)
     Q0Fill,
     /// QoS 1 publish through the non-blocking API (publish_ack_cb + send_at_least_once_no_block)
@@ -136,6 +138,13 @@ async fn run_sender_v5(sink: ntex_mqtt::v5::MqttSink, kind: SK, j: usize, app: A
         }
         SK::Q1LongTopic => {
             let r = sink.publish(bs(&"L".repeat(65_536))).send_at_least_once(by(&[tag(j)])).await;
+            push(match &r {
+                Ok(a) => ackstr(a),
+                Err(e) => format!("err:{e:?}"),
+            });
+        }
+        SK::Q1LongProp => {
+            let r = sink.publish(bs("t")).properties(|p| p.content_type = Some(bs(&"P".repeat(65_536)))).send_at_least_once(by(&[tag(j)])).await;
             push(match &r {
                 Ok(a) => ackstr(a),
                 Err(e) => format!("err:{e:?}"),
@@ -330,7 +339,7 @@ async fn run_sender_v3(sink: ntex_mqtt::v3::MqttSink, kind: SK, j: usize, app: A
                 Err(e) => format!("err:{e:?}"),
             });
         }
-        SK::Q1LongTopic => {
+        SK::Q1LongTopic | SK::Q1LongProp => {
             let r = sink.publish(bs(&"L".repeat(65_536))).send_at_least_once(by(&[tag(j)])).await;
             push(match &r {
                 Ok(()) => "ok".into(),
